@@ -1135,7 +1135,11 @@ func tryReplay(prog *Program, cs *ContractSet, prop string, r ObResult, rep *Rep
 	}
 	if len(clauses) == 0 {
 		for _, en := range x.uc.Ensures {
-			if !en.Assumed && hasTag(en.Tags, prop) {
+			q := prop
+			if x.uc.As[prop] != "" {
+				q = x.uc.As[prop]
+			}
+			if !en.Assumed && hasTag(en.Tags, q) {
 				clauses = append(clauses, en)
 			}
 		}
